@@ -34,7 +34,9 @@ theorem C03_source_facts :
     Gen.CFHeaders.detectEarlyReturn = true ∧
     Gen.CFHeaders.thresholdExpr = "(len(filtersFromPeers)+2)/2" ∧
     Gen.CFHeaders.thresholdComparisons = true ∧
-    Gen.CFHeaders.verifyCalledInResolve = true := by decide
+    Gen.CFHeaders.verifyCalledInResolve = true ∧
+    Gen.CFHeaders.writeResolvesBlocksByStopHash = true ∧
+    Gen.CFHeaders.resolveSanityOnWholeLists = true := by decide
 
 /-- (a) the filter-header chain never runs ahead of the block-header chain -/
 theorem C03_not_ahead (H : FHash → Hdr → Hdr) (s0 : St) (h0 : Inv H s0) (ops : List Op) :
@@ -99,28 +101,91 @@ leaves a prefix of the store (rollback), or grows it by appending, one after
 the other, batches `H f₁ tip, H f₂ (H f₁ tip), …` each started at the
 then-current tip (`Grows`) -/
 theorem C03_hash_chain_step (H : FHash → Hdr → Hdr) (ff : Bool) (s : St) (hi : Inv H s) (op : Op) :
-    (step H ff s op).1.fstore <+: s.fstore ∨ Grows H s.fstore (step H ff s op).1.fstore := by
+    ∃ m, m <+: s.fstore ∧ Grows H m (step H ff s op).1.fstore := by
   cases op with
-  | ext ids => exact Or.inl (List.prefix_refl _)
-  | rb h => exact Or.inl (rollbackLoop_fstore_prefix ff h _ s)
-  | wr prev stop hashes => exact Or.inr (grows_writeMsg H s prev stop hashes)
+  | ext ids => exact ⟨s.fstore, List.prefix_refl _, Grows.refl _⟩
+  | rb h => exact ⟨_, rollbackLoop_fstore_prefix ff h _ s, Grows.refl _⟩
+  | wr prev stop hashes => exact ⟨s.fstore, List.prefix_refl _, grows_writeMsg H s prev stop hashes⟩
   | tip net =>
     obtain ⟨s2, a, _, _, h⟩ := tipRound_shape H s net
-    show (tipRound H s net).1.fstore <+: s.fstore ∨ _
+    refine ⟨s.fstore, List.prefix_refl _, ?_⟩
+    show Grows H s.fstore (tipRound H s net).1.fstore
     rcases h with h | ⟨hs2, h⟩
-    · left; rw [h, a]; exact List.prefix_refl _
+    · rw [h, a]; exact Grows.refl _
     · rcases commitPick_fstore H s2 net.pick hs2 with c | ⟨pm, _, c1, c2⟩
-      · left; rw [h, c, a]; exact List.prefix_refl _
-      · right
-        show Grows H s.fstore (tipRound H s net).1.fstore
-        rw [h, c2, a]
+      · rw [h, c, a]; exact Grows.refl _
+      · rw [h, c2, a]
         exact Grows.step pm.2.prev pm.2.hashes (Grows.refl _) (by rw [← a]; exact c1)
+  | tipMid net h ids =>
+    show ∃ m, m <+: s.fstore ∧ Grows H m (tipRoundMid H ff s net h ids).1.fstore
+    rcases tipRoundMid_shape H ff s net h ids with e | ⟨s2, a, _, _, e⟩
+    · rw [e]; exact ⟨s.fstore, List.prefix_refl _, Grows.refl _⟩
+    · refine ⟨s2.fstore, by rw [a]; exact applyMid_fstore_prefix ff s h ids, ?_⟩
+      rcases e with e | ⟨prev, stop, hashes, e⟩
+      · rw [e]; exact Grows.refl _
+      · rw [e]; exact grows_writeMsg H s2 prev stop hashes
   | resolve interval hard net cp =>
-    left
-    show (resolveConflict interval hard s net cp).1.fstore <+: s.fstore
+    refine ⟨s.fstore, List.prefix_refl _, ?_⟩
+    show Grows H s.fstore (resolveConflict interval hard s net cp).1.fstore
     rw [(resolveConflict_frame interval hard s net cp).1]
-    exact List.prefix_refl _
-  | cp interval cps evs => exact Or.inr (cpRound_ok H interval s cps evs hi).2
+    exact Grows.refl _
+  | cp interval cps evs => exact ⟨s.fstore, List.prefix_refl _, (cpRound_ok H interval s cps evs hi).2⟩
+
+/-- (b) a batch fetched for blocks that have meanwhile been reorganised away is
+not written: when the reorganisation that lands between the query and the write
+removes the stop block of the query (distinct block ids), the filter store only
+loses the entries of disconnected blocks and gains nothing -/
+theorem C03_belongs_stale_batch (H : FHash → Hdr → Hdr) (s : St) (net : Net) (h : Nat) (ids : List Blk)
+    (hgone : ∀ b, s.blocks[stopHeight s]? = some b → heightOf (applyMid true s h ids).blocks b = none) :
+    (tipRoundMid H true s net h ids).1.fstore <+: s.fstore := by
+  unfold tipRoundMid
+  cases s.fstore.getLast? with
+  | none => exact List.prefix_refl _
+  | some tip =>
+    by_cases h1 : s.blocks.length - 1 < s.fstore.length - 1
+    · simp only [h1, ↓reduceIte]; exact List.prefix_refl _
+    · simp only [h1, ↓reduceIte]
+      by_cases h2 : s.blocks.length - 1 = s.fstore.length - 1
+      · simp only [h2, ↓reduceIte]; exact List.prefix_refl _
+      · simp only [h2, ↓reduceIte]
+        generalize (List.filter (fun pm => pm.2.prev != tip)
+          (gather (applyMid true s h ids) net (batchLen s))).map (·.1) = wrong
+        generalize List.filter (fun pm => pm.2.prev == tip)
+          (gather (applyMid true s h ids) net (batchLen s)) = hs1
+        by_cases h3 : hs1.isEmpty = true
+        · simp only [h3, ↓reduceIte]; exact applyMid_fstore_prefix true s h ids
+        · simp only [h3, Bool.false_eq_true, ↓reduceIte]
+          have hf := idxLoop_frame net s.fstore.length (List.range (batchLen s))
+            (ban (applyMid true s h ids) wrong reasonHeader) hs1
+          generalize idxLoop net s.fstore.length (List.range (batchLen s))
+            (ban (applyMid true s h ids) wrong reasonHeader) hs1 = r at hf
+          obtain ⟨s2, e⟩ := r
+          have hpre : s2.fstore <+: s.fstore := by rw [hf.1]; exact applyMid_fstore_prefix true s h ids
+          cases e with
+          | error e => exact hpre
+          | ok hs2 =>
+            simp only
+            cases hs2[net.pick % hs2.length]? with
+            | none => exact hpre
+            | some pm =>
+              simp only
+              cases hb : s.blocks[stopHeight s]? with
+              | none => exact hpre
+              | some stopB =>
+                simp only
+                rw [wToT_fst]
+                have hg : heightOf s2.blocks stopB = none := by
+                  rw [hf.2.2]; exact hgone stopB hb
+                have : (writeMsg H s2 pm.2.prev stopB pm.2.hashes).1 = s2 := by
+                  unfold writeMsg
+                  cases s2.fstore.getLast? with
+                  | none => rfl
+                  | some t =>
+                    simp only
+                    split
+                    · rfl
+                    · rw [hg]
+                rw [this]; exact hpre
 
 example : (step (fun f p => 100 * p + f) true { blocks := [0, 1, 2], fstore := [1], fblk := [0] }
     (.wr 1 2 [7, 8])).1.fstore = [1, 107, 10708] := by decide
